@@ -52,8 +52,8 @@
 (*  "doc"    closed: every header kind x every build history of <=         *)
 (*           MaxParas add_* calls over four fixed context paragraphs and   *)
 (*           AT MOST ONE focus paragraph ranging over every shape          *)
-(*           (BigPats patterns x copyright texts of <= CopyMax lines x     *)
-(*           license texts of <= BigTextMax lines over BigTextAlpha).      *)
+(*           (copyright texts of <= CopyMax lines x license texts of <=    *)
+(*           BigTextMax lines over BigTextAlpha; every pattern count).     *)
 (*           DocProps = BuildAccepted /\ FilesFirst /\ RoundTrip           *)
 (*           (Load(Dump(D)) = D, strict mode raises nothing) /\ Stable     *)
 (*           (Dump(Load(Dump(D))) = Dump(D)).                              *)
@@ -71,7 +71,7 @@
 (* Not modelled: the characters inside a payload (sampled by the harness), *)
 (* trailing white space, comments, PGP armor (spec/Deb822Reader.tla).      *)
 (***************************************************************************)
-EXTENDS Integers, Sequences, FiniteSets, TLC, Json
+EXTENDS Integers, Sequences, SequencesExt, FiniteSets, TLC, Json
 
 CONSTANTS Mode,            \* "codec" | "doc" | "trace"
           Alphabet,        \* codec: class symbols the lists are drawn from
@@ -118,8 +118,8 @@ Mk(s, id) == CASE s = "E"  -> EmptyLn
 Join(ls)      == IF ls = <<>> THEN <<EmptyLn>> ELSE ls                    \* '\n'.join(ls)
 SplitLines(s) == IF IsEmpty(s[Len(s)]) THEN SubSeq(s, 1, Len(s) - 1) ELSE s  \* s.splitlines()
 
-RECURSIVE Flat(_)
-Flat(ss) == IF ss = <<>> THEN <<>> ELSE Head(ss) \o Flat(Tail(ss))
+\* (FoldLeft is evaluated iteratively by TLC: no recursion depth proportional to the document length)
+Flat(ss) == FoldLeft(LAMBDA acc, x : acc \o x, <<>>, ss)
 
 ----------------------------------------------------------------------------
 \* codec: format_multiline_lines / parse_multiline_as_lines
@@ -213,9 +213,7 @@ RStep(s, dl) ==
    ELSE IF dl.x.ind >= 1 THEN [s EXCEPT !.val = IF s.open THEN Append(@, dl.x) ELSE @,       \* _multidata
                                         !.seen = TRUE]
    ELSE [s EXCEPT !.seen = TRUE]                                                             \* matches nothing
-RECURSIVE ReadFrom(_, _, _)
-ReadFrom(s, ls, i) == IF i > Len(ls) THEN s ELSE ReadFrom(RStep(s, ls[i]), ls, i + 1)
-ReadParas(ls) == LET s == ReadFrom(RInit, ls, 1)
+ReadParas(ls) == LET s == FoldLeft(RStep, RInit, ls)
                      f == Flush(s)
                  IN IF s.stopped \/ f = <<>> THEN s.done ELSE Append(s.done, f)
 
@@ -251,11 +249,9 @@ Load(ls) ==
 \* Copyright.add_files_paragraph / add_license_paragraph
 LastFiles(ps) == LET S == {i \in 1..Len(ps) : ps[i].kind = "Files"}
                  IN IF S = {} THEN 0 ELSE CHOOSE i \in S : \A j \in S : j <= i
-InsertAt(ps, i, x) == SubSeq(ps, 1, i) \o <<x>> \o SubSeq(ps, i + 1, Len(ps))
-AddPara(ps, p) == IF p.kind = "Files" THEN InsertAt(ps, LastFiles(ps), p) ELSE Append(ps, p)
-RECURSIVE BuildFrom(_, _, _)
-BuildFrom(ps, ops, i) == IF i > Len(ops) THEN ps ELSE BuildFrom(AddPara(ps, ops[i]), ops, i + 1)
-Build(ops) == BuildFrom(<<>>, ops, 1)
+PutAfter(ps, i, x) == SubSeq(ps, 1, i) \o <<x>> \o SubSeq(ps, i + 1, Len(ps))
+AddPara(ps, p) == IF p.kind = "Files" THEN PutAfter(ps, LastFiles(ps), p) ELSE Append(ps, p)
+Build(ops) == FoldLeft(AddPara, <<>>, ops)
 
 ----------------------------------------------------------------------------
 \* the structure spaces
@@ -277,7 +273,11 @@ SmallShapes == {FShape(1, <<"P">>, <<>>), FShape(2, <<"P", "I">>, <<"P", "E", "I
                 LShape(<<>>), LShape(<<"P", "E", "P">>)}
 BigTexts  == {t \in SeqsUpTo(BigTextAlpha, BigTextMax) : TextOK(t)}
 BigCopys  == {<<"P">> \o c : c \in SeqsUpTo(CopyAlpha, CopyMax - 1)}
-BigShapes == {FShape(np, cp, tx) : np \in BigPats, cp \in BigCopys, tx \in BigTexts}
+\* the focus paragraph: every copyright text x every license text (with the longest pattern list),
+\* every pattern count (with the simplest texts), every stand-alone license text
+MaxPat    == CHOOSE n \in BigPats : \A m \in BigPats : m <= n
+BigShapes == {FShape(MaxPat, cp, tx) : cp \in BigCopys, tx \in BigTexts}
+             \cup {FShape(np, <<"P">>, <<>>) : np \in BigPats}
              \cup {LShape(tx) : tx \in BigTexts}
 
 HdrOf(kind) ==
